@@ -76,7 +76,7 @@ def proj_session(which):
 def with_session(proj, which):
     return lambda c: proj_session(which)(c) if kind(c) == 'session' else proj(c)
 
-SESSION_RULE = " || `session` lines: one real segment (fresh file, real ShmWriter), one long-lived ClockBoundClient and one long-lived C context (clockbound_open in the C client process) driven through 3-20 operations: publications, the generation/version word overwritten (writer dead mid-update, segment being re-initialised), re-opens, and paired now()/clockbound_now() calls at instants aimed at the cached record's thresholds (blur, 5 s, void-after, far beyond, 2^32-ns aliases); ten scripted sessions (one record ageing through every threshold on one client, grace-then-void with nothing in between, a record that becomes malformed asked repeatedly, repeated causality breach, odd/zero generation before the first call, frozen odd generation while the cached record ages, publications between calls, open before the first publication) always run; every answer must be what a fresh evaluation of the cached-record semantics gives, with the clock reads in the order REALTIME, MONOTONIC_COARSE on every call"
+SESSION_RULE = " || `session` lines: one real segment (fresh file, real ShmWriter), one long-lived ClockBoundClient and one long-lived C context (clockbound_open in the C client process) driven through 3-20 operations: publications, the generation/version word overwritten (writer dead mid-update, segment being re-initialised), re-opens, and paired now()/clockbound_now() calls at instants aimed at the cached record's thresholds (blur, 5 s, void-after, far beyond, 2^32-ns aliases); ten scripted sessions (one record ageing through every threshold on one client, grace-then-void with nothing in between, a record that becomes malformed asked repeatedly, repeated causality breach, odd/zero generation before the first call, frozen odd generation while the cached record ages, publications between calls, open before the first publication, the path given a new inode under attached clients that are then asked 2100 times in a row) always run; op `x` = the path is unlinked and a new file put there, `qn`/`cqn` = the same call N times (N in {2, 17, 1023, 1024, 1025, 2100}): all answers identical; every answer must be what a fresh evaluation of the cached-record semantics gives, with the clock reads in the order REALTIME, MONOTONIC_COARSE on every call"
 
 def world_pubs(ans):
     """the publications of a world line: list of token lists starting with 'rec'"""
@@ -363,8 +363,10 @@ PROPS.update({
  ),
  'C03': sl_entry('C03', lambda c: ('calls2' in c.tags and ('pubs2' in c.tags or 'catchup' in c.tags)) or 'longSkip' in c.tags or 'wrap' in c.tags,
     "plus `skip` lines: a real reader attached at generation g0 sleeps through n real publications (n up to 65535, incl. 16384, 32766, 32767 (the documented exception), 32768, across the 16-bit wrap and from an odd start) and then calls twice, sequentially. non-trivial = a reader makes >= 2 calls while >= 2 publications complete, or a quiescent fresh call checks the catch-up clause, or a skip of >= 16384 publications / across the wrap (tags calls2+pubs2, catchup, longSkip, wrap)",
-    gens=lambda seed, th: [['slgen', seed, 40000 if th else 1500], ['skipgen', 'all'] if th else ['skipgen'], ['crashgrid'], ['slxgen', 'all'] if th else ['slxgen']],
-    relevant=lambda c: kind(c) in ('sl', 'skip', 'crashpt', 'slx'),
+    gens=lambda seed, th: [['slgen', seed, 40000 if th else 1500], ['skipgen', 'all'] if th else ['skipgen'], ['crashgrid'], ['slxgen', 'all'] if th else ['slxgen'], ['session', seed, 20000 if th else 1000]],
+    relevant=lambda c: kind(c) in ('sl', 'skip', 'crashpt', 'slx', 'session'),
+    pre='build_cclient',
+    project=lambda c: proj_session('all')(c) if kind(c) == 'session' else proj_sl(c),
     lean_modules=['ClockBound.Properties.C03', 'ClockBound.Properties.C03b'],
     technique='Lean 4 proof: coherence-based monotonicity invariant over all executions + catch-up theorem for fresh reads on a quiescent log + generation potential function for the 32767 exception; same schedule-level correspondence as C02',
     level_text='Theorems C03.accepted_monotone / cache_is_accepted_publication (the generation message behind a reader\'s cached snapshot never moves backwards), catches_up (no update in flight + fresh reads + cached generation differs => the call returns the latest completed publication), same_generation_serves_cache and equal_generation_same_message (the documented exception needs >= 32767 completed updates).',
@@ -372,10 +374,11 @@ PROPS.update({
  ),
  'C18': sl_entry('C18', lambda c: bool(c.tags & {'retry', 'crash', 'exhaust'}),
     "plus `slx` lines: the real snapshot() alone against scripted load results (a continuously updating writer: the generation changes at every load) until it gives up - the number of attempts must be exactly the budget; non-trivial = a call retried, the writer was killed mid-update, or the budget was exhausted",
-    gens=lambda seed, th: [['slgen', seed, 20000 if th else 800], ['slxgen', 'all'] if th else ['slxgen'], ['client', seed, 20000 if th else 1500]],
-    relevant=lambda c: kind(c) in ('sl', 'slx', 'client'),
+    gens=lambda seed, th: [['slgen', seed, 20000 if th else 800], ['slxgen', 'all'] if th else ['slxgen'], ['client', seed, 20000 if th else 1500], ['session', seed, 20000 if th else 600]],
+    relevant=lambda c: kind(c) in ('sl', 'slx', 'client', 'session'),
     also=['C14'],
-    project=lambda c: proj_client('class')(c) if kind(c) == 'client' else proj_sl(c),
+    pre='build_cclient',
+    project=lambda c: proj_client('class')(c) if kind(c) == 'client' else (proj_session('class')(c) if kind(c) == 'session' else proj_sl(c)),
     lean_modules=['ClockBound.Properties.C18', 'ClockBound.Properties.SeqlockProg'],
     technique='Lean 4 termination measure on the reader machine, for every log and every load result + full exhaustion runs of the real snapshot() against an adversarial value script + scheduler runs with a writer killed at every kind of point',
     level_text='Theorems C18.step_decreases / bounded: every shared access of snapshot() ends the call or strictly decreases an explicit measure <= 2 + 10^6 * 9, whatever the log contains and whatever the loads return (so for a writer stopped for ever at any point or updating continuously); in_flight_answers_from_cache / version_zero_answers_from_cache: an odd or zero generation, or version 0, is answered from the cache after at most two loads.',
@@ -446,5 +449,10 @@ for _p, _g in CONSTS.items():
     if _p in PROPS:
         PROPS[_p]['consts_module'] = f'ClockBound.Properties.Consts{_g}'
 
-for _p in ('C05', 'C06', 'C14', 'C12', 'C17'):
+for _p in ('C05', 'C06', 'C14', 'C12', 'C17', 'C03', 'C18'):
     PROPS[_p]['rule'] += SESSION_RULE
+
+# hostile-environment pass (tools/check.py): request kinds re-executed with the environment variables the binary mentions set
+for _p, _k in {'C18': ('slx', 'session'), 'C02': ('slx',), 'C03': ('slx', 'skip', 'session'), 'C04': ('slx',), 'C05': ('session', 'client'), 'C06': ('session', 'client'),
+               'C12': ('session', 'corder'), 'C14': ('session', 'client'), 'C17': ('session', 'sandwich'), 'C16': ('open',)}.items():
+    if _p in PROPS: PROPS[_p]['env_kinds'] = _k
